@@ -12,7 +12,7 @@ ct=$(ctest --test-dir build -j8 --timeout 900 2>&1 | grep "tests passed\|tests f
 nonmem=$(ctest --test-dir build -j8 --timeout 900 --rerun-failed 2>&1 | grep "Failed\|Timeout" | grep -v memory_test | wc -l)
 bash $D/run_demo.sh $WT > /tmp/demo-$PID-$N-with.log 2>&1; rcw=$?
 out=$(VERIF_REPO=$WT /verif/bin/vcheck $PID 2>&1); rcc=$?
-keys=$(echo "$out" | grep -o 'key=[^ ]*' | sort -u | tr '\n' ' ')
+keys=$(echo "$out" | grep '^VIOLATION' | grep -o 'key=[^ ]*' | sort -u | tr '\n' ' ')
 git apply -R $D/patch.diff
 cmake --build build -j8 >/dev/null 2>&1
 bash $D/run_demo.sh $WT > /tmp/demo-$PID-$N-without.log 2>&1; rcwo=$?
